@@ -1121,9 +1121,124 @@ def _oracle_coupled(s, fails):
                 break
 
 
+# ---------------------------------------------------------------------------------------
+# general coupled systems (non-proportional / gyroscopic damping, zero-stiffness DOF coupled through damping
+# only): no modal closed form exists, so the reference is the exact hold solution from scipy.linalg.expm of the
+# augmented matrix, computed here with plain numpy/scipy (independent of pyYeti)
+
+
+def _gen_general(rng):
+    n = int(rng.integers(2, 6))
+    h = float(10 ** rng.uniform(-2.5, -1))
+    X = rng.standard_normal((n, n))
+    M = X @ X.T / n + np.eye(n) * rng.uniform(0.5, 2.0)
+    if rng.random() < 0.4:
+        M = np.diag(rng.uniform(0.5, 3.0, n))
+    nz = int(rng.integers(0, n)) if rng.random() < 0.6 else 0  # DOF with no stiffness at all
+    ne = n - nz
+    wn = rng.uniform(0.3, 4.0, ne) / h / 6
+    Y = np.linalg.qr(rng.standard_normal((ne, ne)))[0] if ne else np.zeros((0, 0))
+    K = np.zeros((n, n))
+    K[nz:, nz:] = Y @ np.diag(wn * wn) @ Y.T if ne else 0.0
+    style = str(rng.choice(["sym", "skew", "sym+skew", "skew-on-zero-stiffness", "none"]))
+    B = np.zeros((n, n))
+    wm = float(wn.mean()) if ne else 1.0 / h
+    if style in ("sym", "sym+skew"):
+        Z = rng.standard_normal((n, n))
+        S = Z @ Z.T / n * 0.1 * wm
+        if nz and rng.random() < 0.5:
+            S[:nz, :] = 0.0
+            S[:, :nz] = 0.0
+        B += S
+    if style in ("skew", "sym+skew"):
+        G = rng.standard_normal((n, n)) * 0.3 * wm
+        B += G - G.T
+    if style == "skew-on-zero-stiffness" and nz >= 2:
+        # gyroscopic coupling among the zero-stiffness DOF only (zero diagonal): they are not rigid-body modes
+        G = np.zeros((n, n))
+        G[:nz, :nz] = rng.standard_normal((nz, nz)) * rng.uniform(0.2, 3.0) / h / 6
+        B += G - G.T
+        if ne:
+            Z = rng.standard_normal((ne, ne))
+            B[nz:, nz:] += Z @ Z.T / ne * 0.05 * wm
+    nt = int(rng.integers(3, 16))
+    F = rng.standard_normal((n, nt)) * 10 ** rng.uniform(-1, 1)
+    return {"kind": "general", "n": n, "h": h, "order": int(rng.integers(0, 2)), "style": style, "nz": nz,
+            "M": M.tolist(), "B": B.tolist(), "K": K.tolist(), "F": F.tolist(),
+            "d0": None if rng.random() < 0.4 else [float(x) for x in rng.standard_normal(n)],
+            "v0": None if rng.random() < 0.4 else [float(x) for x in rng.standard_normal(n) * 0.1 / h]}
+
+
+def _expm_reference(M, B, K, h, F, d0, v0, order):
+    """exact samples of M x'' + B x' + K x = f(t), f piecewise linear (order 1) or held (order 0)"""
+    import scipy.linalg as sla
+
+    n, nt = F.shape
+    Mi = np.linalg.inv(M)
+    A = np.zeros((2 * n, 2 * n))
+    A[:n, :n] = -Mi @ B
+    A[:n, n:] = -Mi @ K
+    A[n:, :n] = np.eye(n)
+    Bu = np.vstack([Mi, np.zeros((n, n))])
+    big = np.zeros((4 * n, 4 * n))
+    big[: 2 * n, : 2 * n] = A
+    big[: 2 * n, 2 * n : 3 * n] = Bu
+    big[2 * n : 3 * n, 3 * n :] = np.eye(n)
+    E = sla.expm(big * h)
+    z = np.concatenate([np.zeros(n) if v0 is None else v0, np.zeros(n) if d0 is None else d0])
+    d, v, a = np.zeros((n, nt)), np.zeros((n, nt)), np.zeros((n, nt))
+    for j in range(nt):
+        d[:, j], v[:, j] = z[n:], z[:n]
+        a[:, j] = Mi @ (F[:, j] - B @ v[:, j] - K @ d[:, j])
+        if j + 1 < nt:
+            g = (F[:, j + 1] - F[:, j]) / h if order == 1 else np.zeros(n)
+            z = (E @ np.concatenate([z, F[:, j], g]))[: 2 * n]
+    return d, v, a, A
+
+
+def _oracle_general(s, fails):
+    ode = _ode()
+    M, B, K, F = (np.array(s[x], float) for x in ("M", "B", "K", "F"))
+    d0, v0 = _arr(s["d0"]), _arr(s["v0"])
+    n, h, o = s["n"], s["h"], s["order"]
+    rd, rv, ra, A = _expm_reference(M, B, K, h, F, d0, v0, o)
+    lam, V = np.linalg.eig(A)
+    condV = np.linalg.cond(V)
+    inp = dict(s)
+    sd = np.abs(rd).max() + h * np.abs(rv).max() + 1e-300
+    sv = np.abs(rv).max() + sd / h + 1e-300
+    sa = np.abs(ra).max() + sv / h + 1e-300
+
+    def run(name, fn, tol):
+        try:
+            with warnings.catch_warnings():
+                warnings.simplefilter("ignore")
+                sol = fn()
+        except Exception as e:  # noqa: BLE001
+            fails.append({"family": "general-coupled-raises-" + name, "what": name + " refuses a valid coupled system",
+                          "input": inp, "observed": "%s: %s" % (type(e).__name__, str(e)[:100]), "required": "a solution"})
+            return
+        for nm, x, y, sc in (("d", sol.d, rd, sd), ("v", sol.v, rv, sv), ("a", sol.a, ra, sa)):
+            e = _note("general-" + name, _rel(np.asarray(x), y, sc))
+            if not e <= tol:
+                fails.append({"family": "general-coupled-" + name + "-vs-expm-reference",
+                              "what": "%s differs from the exact hold solution (scipy expm of the augmented matrix) in %s; "
+                                      "damping style %s, %d DOF without stiffness" % (name, nm, s["style"], s["nz"]),
+                              "input": inp, "observed": e, "required": "<= %g" % tol})
+                return
+
+    run("SolveExp2", lambda: ode.SolveExp2(M, B, K, h, order=o).tsolve(F, d0, v0), 1e-8)
+    if condV < 1e5 and s["nz"] == 0 or (condV < 1e5 and s["style"] == "skew-on-zero-stiffness" and s["nz"] >= 2):
+        # the complex-eigenvalue path needs a diagonalisable state matrix; accuracy graded by cond(V)
+        run("SolveUnc-coupled", lambda: ode.SolveUnc(M, B, K, h, order=o).tsolve(F, d0, v0), 1e-9 * max(10.0, condV))
+
+
 def _oracle_one(s):
     _quiet()
     fails = []
+    if s.get("kind") == "general":
+        _oracle_general(s, fails)
+        return fails
     if s.get("kind") == "coupled" or s.get("phi") is not None:
         _oracle_coupled(s, fails)
     else:
@@ -1188,8 +1303,15 @@ def search(ctx, hints):
         specs.append(_gen_sys(ctx, rng, oracle=True))
     for _ in range(ctx.pick(120, 1500)):
         specs.append(_gen_coupled(ctx, rng, oracle=True))
+    for _ in range(ctx.pick(250, 3000)):
+        specs.append(_gen_general(rng))
     for s in specs:
         fs = _oracle_one(s)
+        if s.get("kind") == "general":
+            ctx.count("oracle:general-coupled")
+            ctx.count("oracle:general-" + s["style"] + ("-zero-stiffness-dof" if s["nz"] else ""))
+            ctx.failures.extend(fs)
+            continue
         ctx.count("oracle:" + ("coupled" if s.get("phi") is not None else "uncoupled"))
         if _rf_below_rb(s):
             ctx.count("oracle:rf-below-rb")
